@@ -74,6 +74,7 @@ inductive Op
   | fireDl (m id : Nat)
   | turnEnd (m : Nat)        -- `_player_turn_ended` finds game mode m (auto_stop_on_ball_end) still starting
   | cfgPlay (m id : Nat)     -- `config_play_callback` of an entry of mode m's config player `id` is called (ids < 100 record something under the context)
+  | cfgSub (m id : Nat) (on : Bool)  -- a conditional entry (`"{condition}":` = template subscription) of config player `id` is (re-)evaluated: played when true, removed when false
   | addTm (m id : Nat)       -- a device of mode m schedules a delay on its own manager / a periodic task
   | fireTm (m id : Nat)      -- such a delay elapses
   | remTm (m id : Nat)       -- the device cancels it (`DelayManager.remove`, `clock.unschedule`; nothing happens when it is gone)
@@ -108,6 +109,9 @@ def mkEnts (owner : Nat) (cls : Cls) : Nat → List Ent
   | n + 1 => mkEnts owner cls n ++ [⟨owner, cls, n⟩]
 
 def ownedBy (m : Nat) (e : Ent) : Bool := e.owner == m
+
+/-- the mode's config players are loaded (`stop_methods`): from the accepted `start` until `_stopped` -/
+def up (ms : MState) : Bool := ms.starting || ms.active
 
 /-- the mode's devices are loaded: from the accepted `start` until the cleanup of the stop has run -/
 def alive (ms : MState) : Bool := ms.starting || ms.active || ms.cleanupPending
@@ -196,6 +200,13 @@ def step (st : St) : Op → Option St
     if (st.modes m).active && decide (id < 100) && !st.fx.contains ⟨m, .cfg, id⟩ then
       some { st with fx := st.fx ++ [⟨m, .cfg, id⟩] }
     else some st
+  | .cfgSub m id on =>
+    -- subscriptions are made in `start()` (`mode_start` of the player: the entry is evaluated and played at once, while the
+    -- mode is still starting) and cancelled by `unload_player_events` in `_stopped`
+    if !up (st.modes m) then none
+    else if decide (id ≥ 100) then some st
+    else if on then (if st.fx.contains ⟨m, .cfg, id⟩ then some st else some { st with fx := st.fx ++ [⟨m, .cfg, id⟩] })
+    else some { st with fx := st.fx.filter (fun e => e != ⟨m, .cfg, id⟩) }
   | .addTm m id =>
     if alive (st.modes m) then some { st with tm := st.tm ++ [⟨m, .dev, id⟩] } else none
   | .fireTm m id =>
@@ -298,6 +309,10 @@ def driverStep (d : DState) (line : String) : DState × String :=
         | some st' => ({ d with st := st' }, if (d.st.modes m').active then "played" else "skipped")
       else (d, "bad-op")
     | _, _ => (d, "bad-op")
+  | ["cfgsub", m, id, v] =>
+    match m.toNat?, id.toNat?, parseBool v with
+    | some m', some i, some v' => answer d (step d.st (.cfgSub m' i v')) true
+    | _, _, _ => (d, "bad-op")
   | ["state"] => (d, showState d)
   | _ => (d, "bad-op")
 
